@@ -42,6 +42,11 @@ func (s *State) evalAssignment(right object.Object, node *ast.InfixExpression) o
 		id := node.Left.(*ast.Identifier)
 		name := id.Literal()
 		log.LogVf("eval assign %#v to %s", right, name)
+		if right.Type() == object.FUNC {
+			if _, exists := s.env.Get(name); exists {
+				s.ResetCache() // rebinding a name to a function: memoized results of its callers are stale.
+			}
+		}
 		// Propagate possible error (constant, extension names setting).
 		// Distinguish between define and assign, define (:=) forces a new variable.
 		return s.env.CreateOrSet(name, right, node.Type() == token.DEFINE)
@@ -304,6 +309,9 @@ func (s *State) evalNode(node any) object.Object { //nolint:funlen,gocognit,gocy
 		}
 		object.SetCacheKey(&fn) // sets cache key
 		if name != nil {
+			if _, exists := s.env.Get(name.Literal()); exists {
+				s.ResetCache() // redefinition: memoized results of the callers of the previous definition are stale.
+			}
 			oerr := s.env.Set(name.Literal(), fn)
 			if oerr.Type() == object.ERROR {
 				return oerr // propagate that func FOO() { ... } can only be defined once.
@@ -452,6 +460,8 @@ var ErrorKey = object.String{Value: "err"} // can't use error as that's a builti
 
 func (s *State) evalDelete(node ast.Node) object.Object {
 	s.env.TriggerNoCache()
+	// Memoized results may depend on what is being deleted (constants and functions are assumed not to change).
+	s.ResetCache()
 	switch node.Value().Type() {
 	case token.IDENT:
 		name := node.Value().Literal()
